@@ -1,20 +1,26 @@
 // verif_render: second pass of the C19 correspondence. Reads the lines ocaml/render_main.ml printed.
 //
-//   SEG <tag> <observed hex | - | E> <segment>*       (or the single pseudo segment !E: the model
-//                                                      says the call returns an error; observed E)
+//	SEG <tag> <observed hex | - | E> <segment>*       (or the single pseudo segment !E: the model
+//	                                                   says the call returns an error; observed E)
 //
 // Each segment of the MODEL's rendering (coq/theories/Gen/Render.v) is turned into bytes:
-//   L<hex>    literal bytes (integers were already printed by the Coq printers)
-//   G<bits>   strconv.AppendFloat(nil, math.Float64frombits(bits), 'g', -1, 64)   (cantext)
-//   F<bits>   strconv.FormatFloat(math.Float64frombits(bits), 'f', -1, 64)        (canjson.floatToJSON)
-//   J<hex>    encoding/json.Marshal(string(bytes))                                (struct string fields)
-//   D<ns>     time.Duration(ns).String()                                          (CycleTime/DelayTime)
+//
+//	L<hex>    literal bytes (integers were already printed by the Coq printers)
+//	G<bits>   strconv.AppendFloat(nil, math.Float64frombits(bits), 'g', -1, 64)   (cantext)
+//	F<bits>   strconv.FormatFloat(math.Float64frombits(bits), 'f', -1, 64)        (canjson.floatToJSON)
+//	J<hex>    encoding/json.Marshal(string(bytes))                                (struct string fields)
+//	D<ns>     time.Duration(ns).String()                                          (CycleTime/DelayTime)
+//
 // These four calls are exactly what the model does NOT model (DESIGN.md section 3, oracles). The
 // concatenation is compared with the bytes the implementation produced; a difference is printed as
-//   MISMATCH <tag> obs=<hex> || model=<hex>
+//
+//	MISMATCH <tag> obs=<hex> || model=<hex>
+//
 // The two hypotheses of theorem C19_json_valid are checked on every rendered value:
-//   every F rendering matches the RFC 8259 number grammar, every J rendering is a JSON string
-//   (PFAIL <tag> || clause=...). All other input lines are passed through unchanged.
+//
+//	every F rendering matches the RFC 8259 number grammar, every J rendering is a JSON string
+//	(PFAIL <tag> || clause=...). All other input lines are passed through unchanged.
+//
 // Final line: RSTATS {json}.
 package main
 
